@@ -243,6 +243,15 @@ fn corrupt(cx: &mut Cx, holder: NodeId, key: Arc<KeyMat>, issued: Arc<Cred>, sin
     { let mut d = (*issued).clone(); d.v += nmod; send(cx, d, "sig_field:v+N".into()); }
     { let mut d = (*issued).clone(); d.v -= nmod; send(cx, d, "sig_field:v-N".into()); }
     { let mut d = (*issued).clone(); d.s += Integer::from(&d.e); send(cx, d, "sig_field:s+e".into()); }
+    // an insider's edit (needs the factorisation): e plus the order of the group of squares,
+    // p'q' = (p-1)(q-1)/4.  v^(e + p'q') = v^e, the same equation with an exponent of ~1022
+    // bits instead of le = 258: only the length test on e refuses it, in BOTH entry points
+    {
+        let ord = Integer::from(&key.sk.p - 1u32) * Integer::from(&key.sk.q - 1u32) / 4u32;
+        cx.count("probe.exponent_shifted_by_the_group_order");
+        let mut d = (*issued).clone(); d.e += &ord; send(cx, d, "sig_field:e+ord(QR_N)".into());
+        let mut d = (*issued).clone(); d.e += Integer::from(&ord * 4u32); send(cx, d, "sig_field:e+phi(N)".into());
+    }
     // other bases / other key
     { let mut d = (*issued).clone(); d.bases = key.bases2.0[..n].to_vec(); send(cx, d, "misroute_bases".into()); }
     // (rotating the bases under a constant attribute vector leaves prod a_i^m_i unchanged: same statement)
